@@ -21,9 +21,9 @@ What is mirrored, quirk by quirk:
   (`cropZ`, checked against kornia on both); `integral_regression`: `gv[k] = k - (p-1)/2`,
   `x̂ = Σ gv[b]·P[a][b] / Σ P`, `ŷ = Σ gv[a]·P[a][b] / Σ P`.  A zero patch sum (the code then
   produces inf/NaN) is `none`.
-* `find_global_peaks_rough`, **as it is** (`globalRoughAsIs`): x = first argmax over columns of the
+* `find_global_peaks_rough`, **as it was before the repair f45cc18** (`globalRoughAsIs`, kept as a regression record): x = first argmax over columns of the
   per-column maximum, y = first argmax over rows of the per-row maximum — two separate
-  reductions; and **repaired** (`globalRough`, fixes/C07-flat-argmax.patch): first maximum of
+  reductions; and **as it is now** (`globalRough`, fixes/C07-flat-argmax.patch applied): first maximum of
   the row-major flattening, `x = k % w`, `y = k / w`.  `max < threshold` ↦ `(none, 0)`.
 * `find_global_peaks(refinement="integral")`: `rough_peaks.view(S*C,2)`, `valid_idx` = the
   non-NaN rows, crops taken from flat map `valid_idx[k]`, offsets scattered back with
@@ -182,7 +182,7 @@ def globalRough1 (thr : R) (h w : Nat) (img : Nat → Nat → R) : GPeak R :=
   let k := argmaxUpTo f (h * w - 1)
   threshold thr (k % w) (k / w) (f k)
 
-/-- `find_global_peaks_rough` as it is on the pinned tree: two separate reductions -/
+/-- `find_global_peaks_rough` as it was before the repair f45cc18 (finding F-C07): two separate reductions -/
 def globalRoughAsIs1 (thr : R) (h w : Nat) (img : Nat → Nat → R) : GPeak R :=
   let colMax : Nat → R := fun j => maxUpTo (fun i => img i j) (h - 1)
   let rowMax : Nat → R := fun i => maxUpTo (fun j => img i j) (w - 1)
